@@ -21,6 +21,7 @@ type FmtCase struct {
 	Tags    map[string]string   `json:"tags"`
 	Prepend string              `json:"prepend"`
 	Missing string              `json:"missing,omitempty"` // non-empty: a value is missing, the child must die
+	InStream map[string]bool    `json:"in_stream,omitempty"` // in-ports whose file arrives as a stream (FIFO)
 }
 
 var fmtInPaths = []string{"f.txt", "d/f.txt", "d/e/report.txt", "text.txt", "a-b_c/x.tar.gz", "../up/t.txt", "/abs/dir/g.txt", "data/s.in.txt", "d.x/f", "x/mat.txt", "../../pp/q.gz", "t.txt", "./.hid/in.txt", "./../o.txt", "./x.txt", ".h/y"}
@@ -105,6 +106,7 @@ func FmtRandom(rng *rand.Rand, id int) *FmtCase {
 		c.In[ports[i]] = fmtInPaths[rng.Intn(len(fmtInPaths))]
 	}
 	np := rng.Intn(3)
+	streamIn := nin > 0 && rng.Intn(8) == 0 // decided after the draws above so that earlier case lists keep their shape
 	for i := 0; i < np; i++ {
 		c.Params[fmt.Sprintf("k%d", i)] = fmtVals[rng.Intn(len(fmtVals))]
 	}
@@ -131,8 +133,16 @@ func FmtRandom(rng *rand.Rand, id int) *FmtCase {
 	var toks []string
 	toks = append(toks, "tool")
 	occ := 1 + rng.Intn(2)
+	if streamIn {
+		// the first in-port receives a streamed file: the placeholder stands for the FIFO's path, modifiers apply to it
+		c.InStream = map[string]bool{"in1": true}
+	}
 	for port, path := range c.In {
 		for o := 0; o < occ; o++ {
+			if c.InStream[port] {
+				toks = append(toks, "-i"+ph("i", port, chain(rng, path+".fifo", 3)))
+				continue
+			}
 			toks = append(toks, "-i"+ph("i", port, chain(rng, path, 3)))
 		}
 	}
@@ -228,6 +238,9 @@ func FmtExpected(c *FmtCase) (cmd string, outs map[string]string, ok bool) {
 	tv := &ref.TaskView{Proc: c.Proc, In: map[string]string{}, InStream: map[string]bool{}, Joined: c.Joined, Params: c.Params, Tags: c.Tags, Outs: map[string]string{}}
 	for k, v := range c.In {
 		tv.In[k] = v
+		if c.InStream[k] {
+			tv.InStream[k] = true
+		}
 	}
 	for k := range c.Joined {
 		tv.In[k] = "carrier." + k
